@@ -9,10 +9,10 @@ TRUSTED = [
     "Model/IsoParser.lean is a hand model of src/dateutil/parser/isoparser.py (cursor = remaining suffix); tied by the iso.parse / iso.date / iso.time / iso.tz correspondence on the whole mutation stream",
     "Spec/IsoForms.lean (printer `render`, field validity `WFields`, denotation `denote`, template-matching recogniser) is the reference for what an ISO-8601 representation is; written from the parser's documented forms",
     "datetime()/date()/time() construction and date +- timedelta are modelled by validity predicates and ordinal range checks (Base/Calendar.lean, Base/Time.lean)",
-    "harness/translate_bytes.py (BytesPy translator): _parse_digits, _parse_tzstr, _parse_isodate_common, _calculate_weekdate, _parse_isodate_uncommon, _parse_isodate, _parse_isotime, the bodies of isoparse, parse_isodate, parse_isotime and parse_tzstr are RE-TRANSLATED from /repo's isoparser.py into Generated/IsoKernels.lean on every run (150 of the module's 164 statements); anything outside the fragment aborts with a named construct (broken tie)",
+    "harness/translate_bytes.py (BytesPy translator): _parse_digits, _parse_tzstr, _parse_isodate_common, _calculate_weekdate, _parse_isodate_uncommon, _parse_isodate, _parse_isotime, the bodies of isoparse, parse_isodate, parse_isotime and parse_tzstr and the inner function of the `_takes_ascii` decorator are RE-TRANSLATED from /repo's isoparser.py into Generated/IsoKernels.lean on every run (159 of the module's 164 statements); anything outside the fragment aborts with a named construct (broken tie)",
     "Proofs/IsoGenEq.lean + Proofs/IsoGenLoop.lean prove EVERY translated function equal to the hand model for all inputs (incl. the `while` loop of _parse_isotime by a simulation lemma: 8 units of fuel suffice), so every audited `_gen` theorem is a statement about the translation of today's source; a behaviour-changing edit breaks a named `_eq`/`sim_*` obligation (or the translation itself)",
-    "named primitives of the translator (Model/BytesPy.lean), trusted with their documented Python meaning and exercised by the isogen.* validation on every run: slice/len/`in` on bytes, bytes.isdigit, int(bytes) (whitespace, sign, PEP 515 underscores), the fraction regex as `fractionMatch`, list get/set (in-range), date()/isocalendar()/timedelta arithmetic on ordinals, date(*l)/time(*l)/datetime(*l), try/except on the exception kind",
-    "still hand-modelled: the `_takes_ascii` decorator and isoparser.__init__ (14 of 164 statements); C07.input_kinds_equivalent states the str/bytes/stream equivalence over the hand model of `_takes_ascii`, and the oracle exercises str, bytes and StringIO inputs on every run",
+    "named primitives of the translator (Model/BytesPy.lean), trusted with their documented Python meaning and exercised by the isogen.* validation on every run: slice/len/`in` on bytes, bytes.isdigit, int(bytes) (whitespace, sign, PEP 515 underscores), the fraction regex as `fractionMatch`, list get/set (in-range), date()/isocalendar()/timedelta arithmetic on ordinals, date(*l)/time(*l)/datetime(*l), try/except on the exception kind, and for `_takes_ascii`: `readAll` = getattr(x,'read',lambda: x)() (a stream delivers EVERYTHING from its current position; str/bytes unchanged), isinstance(x, six.text_type), str.encode('ascii'), and the coercion of the gated value to bytes when the wrapped method is called",
+    "still hand-modelled: isoparser.__init__ only (5 of 164 statements: the `sep` check; Model `mkSep`, exercised with valid and invalid `sep` arguments on every run); the oracle compares str, bytes, StringIO, BytesIO and partially consumed streams on every generated text, incl. texts with line breaks and surrounding blanks",
 ]
 ASSUMPTIONS = [
     "inputs are str, bytes or text streams; other argument types are outside the property",
@@ -148,10 +148,17 @@ def build_stream(ctx):
     for s in rng.sample(iso_bases, min(len(iso_bases), ctx.budget(120, 10 ** 6))):
         add("isoparse", None, True, "bytes", s)
         add("isoparse", None, True, "stream", s)
+        add("isoparse", None, True, "bstream", s)
+        add("isoparse", None, True, "stream@7", s)
+        add("isoparse", None, True, "bstream@3", s)
+        for wv in ic.WHITESPACE_VARIANTS:
+            for kd in ("str", "bytes", "stream", "bstream", "stream@7"):
+                add("isoparse", None, True, kd, wv(s))
         for _ in range(6):
             m = ic.random_edit(s, rng, ic.ALPHABET + ["é", " ", "１"])
             add("isoparse", None, True, "bytes", m)
             add("isoparse", None, True, "stream", m)
+            add("isoparse", None, True, "bstream", m)
         if len(s) > 10:
             i = rng.randrange(len(s))
             add("isoparse", None, True, "str", s[:i] + "１" + s[i + 1:])    # fullwidth digit one
@@ -163,6 +170,10 @@ def build_stream(ctx):
             for z in zs:
                 add(entry, None, z, "str", s)
                 add(entry, None, z, "bytes", s)
+                for kd in ("stream", "bstream", "stream@7", "bstream@3"):
+                    add(entry, None, z, kd, s)
+                    add(entry, None, z, kd, s + "\n")
+                    add(entry, None, z, kd, " " + s)
                 for m in ic.one_edits(s):
                     add(entry, None, z, "str", m)
                 for _ in range(ctx.budget(10, 150)):
@@ -215,7 +226,7 @@ def run_impl(ctx):
 
 def model_input(s, kind):
     """what the model op receives: the str's UTF-8 (gate applied) or the bytes (no gate)"""
-    return s.encode("utf-8") if kind == "bytes" else s
+    return s.encode("utf-8") if ic.is_bytes_kind(kind) else s
 
 
 def correspondence(ctx):
